@@ -58,7 +58,8 @@ Concrete(it) ==
 GenItems == {It("e"), It("c"), It("f"), It("m0"), It("m1"),
              Hdr(B("compiler"), <<B("R8")>>), Hdr(B("compiler"), <<>>), Hdr(B("compiler_version"), <<B("1.2") \o E>>),
              Hdr(B("min_api"), <<B("21")>>), Hdr(B("min_api"), <<B("+7")>>), Hdr(B("min_api"), <<B("4294967296")>>),
-             Hdr(B("min_api"), <<B("4294967295")>>), Hdr(B("min_api"), <<B("x")>>), Hdr(B("min_api"), <<>>)}
+             Hdr(B("min_api"), <<B("4294967295")>>), Hdr(B("min_api"), <<B("x")>>), Hdr(B("min_api"), <<>>),
+             Hdr(B("min-api"), <<B("5")>>), Hdr(B("compiler-version"), <<B("9")>>), Hdr(B("Compiler"), <<B("X")>>)}
 NoiseCounts == {0, 47, 48, 49, 50, 51}
 Noise(n) == [k \in 1..n |-> IF k % 7 = 0 THEN Hdr(B("c"), <<B("d")>>) ELSE It("e")]
 
